@@ -425,11 +425,11 @@ func valDiff(fd protoreflect.FieldDescriptor, va, vb protoreflect.Value, p strin
 		// options messages: compare by deterministic encoding (known vs unknown storage of
 		// extension values must not matter)
 		if strings.HasSuffix(string(fd.Message().Name()), "Options") {
-			ba, _ := proto.MarshalOptions{Deterministic: true}.Marshal(va.Message().Interface())
-			bb, _ := proto.MarshalOptions{Deterministic: true}.Marshal(vb.Message().Interface())
-			if !bytes.Equal(ba, bb) {
-				return p, fmt.Sprintf("%s: stable {%s}, experimental {%s} (%s)", p,
-					prototext.MarshalOptions{}.Format(va.Message().Interface()), prototext.MarshalOptions{}.Format(vb.Message().Interface()), ident(parent))
+			ca, cb := canonWire(va.Message().Interface()), canonWire(vb.Message().Interface())
+			if ca != cb {
+				return p, fmt.Sprintf("%s: stable {%s} = %s, experimental {%s} = %s (%s)", p,
+					prototext.MarshalOptions{}.Format(va.Message().Interface()), ca,
+					prototext.MarshalOptions{}.Format(vb.Message().Interface()), cb, ident(parent))
 			}
 			return "", ""
 		}
@@ -439,6 +439,42 @@ func valDiff(fd protoreflect.FieldDescriptor, va, vb protoreflect.Value, p strin
 		return p, fmt.Sprintf("%s: stable %v, experimental %v (%s)", p, fmtVal(fd, va), fmtVal(fd, vb), ident(parent))
 	}
 	return "", ""
+}
+
+// canonWire is the wire form of an options message as a list of (field number, wire type, value
+// bytes) sorted by field number (stable for repeated occurrences). Whether a custom option is stored
+// as a known extension field or as an unknown field changes the ORDER in which the Go runtime
+// serialises it (extensions first, unknown fields last, in the order they were parsed), never the
+// entries themselves; the property says that storage must not matter.
+func canonWire(m proto.Message) string {
+	b, err := proto.MarshalOptions{Deterministic: true}.Marshal(m)
+	if err != nil {
+		return "marshal error: " + err.Error()
+	}
+	type ent struct {
+		num protowire.Number
+		s   string
+	}
+	var es []ent
+	for len(b) > 0 {
+		num, typ, n := protowire.ConsumeTag(b)
+		if n < 0 {
+			return fmt.Sprintf("bad wire data %x", b)
+		}
+		b = b[n:]
+		vn := protowire.ConsumeFieldValue(num, typ, b)
+		if vn < 0 {
+			return fmt.Sprintf("bad wire data %x", b)
+		}
+		es = append(es, ent{num, fmt.Sprintf("%d/%d=%x", num, typ, b[:vn])})
+		b = b[vn:]
+	}
+	sort.SliceStable(es, func(i, j int) bool { return es[i].num < es[j].num })
+	var out []string
+	for _, e := range es {
+		out = append(out, e.s)
+	}
+	return strings.Join(out, " ")
 }
 
 func fmtVal(fd protoreflect.FieldDescriptor, v protoreflect.Value) string {
